@@ -788,6 +788,37 @@ def check_event_batch(ctx, P):
     o.check(bad is None, "%d epoll_wait call(s)" % n, bad[0] if bad else None, site=bad[1] if bad else None, construct="epoll batch larger than its array")
 
 
+def check_errno_fresh(ctx, P):
+    """errno lives in the kernel thread; glibc declares __errno_location() `const`, so the compiler evaluates it once per function and keeps the
+    address.  A shim whose fiber can resume on another kernel thread (after fiber_wait_for_event) must not test `errno` through an address
+    obtained before the switch: every errno read that can follow a switch must sit in a function the compiler cannot merge with an earlier
+    evaluation (a noinline helper)."""
+    import stale as _st
+    o = ctx.ob("errno.fresh", "", "in every shim, an `errno` read that can execute after a call that may switch kernel threads, while an earlier `errno` read can reach "
+               "that call, goes through a noinline helper (the address of the previous thread's errno cannot be reused)",
+               "after the fiber resumed on another thread the retry's EAGAIN is stored in the new thread's errno while the loop tests the old thread's: a blocking "
+               "write/accept/send returns -1/EAGAIN to its caller (or keeps retrying on a real error)")
+    bad = None
+    n = 0
+    for fn in P.unique_functions():
+        if not fn.relfile.endswith("src/fiber_io.c"):
+            continue
+        sw = _st.switch_calls(P, fn)
+        if not sw:
+            continue
+        reads = [m for m in fn.nodes if is_errno(m)]
+        for r in reads:
+            if r.d.get("inl_noinline"):
+                continue
+            for c in sw:
+                if fn.find_path(c, lambda x, r=r: x is r) is None:
+                    continue
+                if any(e is not r and fn.find_path(e, lambda x, c=c: x is c) is not None for e in reads) or fn.find_path(r, lambda x, c=c: x is c) is not None:
+                    n += 1
+                    bad = bad or ("%s: `errno` at %s can be read through the address computed before `%s` switched the fiber to another kernel thread" % (fn.name, r.loc, c.text[:40]), r)
+    o.check(bad is None, "no errno read straddles a switch", bad[0] if bad else None, site=bad[1] if bad else None, construct="stale errno location")
+
+
 def check_table_size(ctx, P, MV):
     o = ctx.ob("setup.size", "", "the per-descriptor tables and max_fd are sized by the hard RLIMIT_NOFILE limit (rlim_max), the largest value the soft "
                "limit can be raised to while the process runs",
@@ -830,6 +861,7 @@ def run(ctx):
     check_setup(ctx, P, MV)
     check_table_size(ctx, P, MV)
     check_event_batch(ctx, P)
+    check_errno_fresh(ctx, P)
     from props import deps
     deps.depend(ctx, P, "C09", "poll.dep", "the idle loop's polling of the event engine", "a fiber blocked on a descriptor is resumed only by a poller",
                 lambda x: x.rule.startswith("poll."))
